@@ -15,8 +15,10 @@ class Contract:
 
     def __init__(self, qualname, d):
         self.qualname = qualname
+        self.base = qualname.split("#")[0]         # 'pkg.mod.f#variant' -> several contracts of one function
         self.sorts = d.get("sorts", {})                 # param -> kind ; 'result' -> kind
         self.requires = d.get("requires", {})           # name -> expr text
+        self.assumes = d.get("assumes", {})             # name -> expr text: assumed contracts of OTHER code (listed in evidence), not checked at call sites
         self.ensures = d.get("ensures", {})             # name -> expr text ; name prefix 'Cxx.' tags a property
         self.raises = d.get("raises", {})               # class -> {"when": expr|None, "ensures": {name: expr}}
         self.modifies = d.get("modifies", [])           # heap footprints (see heap_keys_of / location syntax)
@@ -294,8 +296,9 @@ class ContractMixin:
     def verify_function(self, fi, c):
         """Generate all obligations of `fi` against its contract `c`."""
         from .symex import Frame, EngineError, Raised
-        self.cur_fn = fi.qualname
+        self.cur_fn = c.qualname
         fr = Frame(fi, fi.module, fi.cls)
+        fr.contract = c
         self.cur_frame = fr
         st = State()
         params = fi.params
@@ -316,15 +319,19 @@ class ContractMixin:
         if a.kwarg:
             st.env[a.kwarg.arg] = SConstSeq([], "dict")
         # ghost pre-state values
-        for rname, text in c.requires.items():
+        for rname, text in list(c.requires.items()) + list(c.assumes.items()):
             st.assume(self.spec_bool(text, st, fr, "assume"))
+        for rname in c.assumes:
+            self.trusted_used.add(f"assumed in {c.qualname}: {rname}: {c.assumes[rname][:160]}")
         st.old = (st.heap.snapshot(), dict(st.env), st.alloc)
         self._entry_env, self._entry_heap = dict(st.env), st.heap.snapshot()
         entry_pc_len = len(st.pc)
         # cover: the precondition is satisfiable
-        self.obligations.append(self.mk_cover(f"{fi.qualname}/cover#requires", list(st.pc), c.props))
+        self.obligations.append(self.mk_cover(f"{c.qualname}/cover#requires", list(st.pc), c.props))
+        n_ob_before = len(self.obligations)
         outs = self.ex(fi.node.body, st, fr, lambda s: [(s, "return", SNone())])
         self.stats["paths"] += len(outs)
+        self._closedness_pending = (n_ob_before, st.heap, st.alloc0)
         n_norm = 0
         raised_classes = {}
         for (s, kind, payload) in outs:
@@ -339,7 +346,50 @@ class ContractMixin:
                 self.engine_problem(f"{fi.qualname}/path", str(payload))
             else:
                 raise EngineError(f"{kind} escaped {fi.qualname}")
+        self.add_closedness(*self._closedness_pending)
         return {"paths": len(outs), "normal": n_norm, "raised": raised_classes}
+
+    def add_closedness(self, first, heap, alloc0):
+        """Entry-heap closedness: every reference stored in an object that existed at entry points to an
+        object that existed at entry (true of every real heap; needed under quantifiers, where the
+        per-read well-formedness facts are not available)."""
+        axioms = []
+        r, j = z3.Int("r!wf"), z3.Int("j!wf")
+        live = z3.And(r > 0, r < alloc0)
+        for key, H in list(heap.initial.items()):
+            k0 = key[0]
+            if k0 == "attr":
+                kind = key[3]
+                if kind == "any":
+                    axioms.append(z3.ForAll([r], z3.Implies(z3.And(live, PyVal.is_RefV(z3.Select(H, r))),
+                                                         z3.And(PyVal.rval(z3.Select(H, r)) > 0, PyVal.rval(z3.Select(H, r)) < alloc0))))
+                elif kind.startswith(("ref:", "list:", "dict:", "set:")):
+                    axioms.append(z3.ForAll([r], z3.Implies(live, z3.And(z3.Select(H, r) > 0, z3.Select(H, r) < alloc0))))
+                elif kind.startswith("optref:"):
+                    axioms.append(z3.ForAll([r], z3.Implies(live, z3.And(z3.Select(H, r) >= 0, z3.Select(H, r) < alloc0))))
+            elif k0 == "elems" and key[1] in ("ref", "any"):
+                ln = heap.initial.get(("len", key[1]))
+                if ln is None:
+                    continue
+                e = z3.Select(z3.Select(H, r), j)
+                rng = z3.And(live, 0 <= j, j < z3.Select(ln, r))
+                if key[1] == "ref":
+                    axioms.append(z3.ForAll([r, j], z3.Implies(rng, z3.And(e > 0, e < alloc0))))
+                else:
+                    axioms.append(z3.ForAll([r, j], z3.Implies(z3.And(rng, PyVal.is_RefV(e)), z3.And(PyVal.rval(e) > 0, PyVal.rval(e) < alloc0))))
+            elif k0 == "dval" and key[2] in ("ref", "any"):
+                has = heap.initial.get(("dhas", key[1]))
+                if has is None:
+                    continue
+                kx = z3.Const("k!wf", FAM_SORT[key[1]])
+                e = z3.Select(z3.Select(H, r), kx)
+                rng = z3.And(live, z3.Select(z3.Select(has, r), kx))
+                if key[2] == "ref":
+                    axioms.append(z3.ForAll([r, kx], z3.Implies(rng, z3.And(e > 0, e < alloc0))))
+                else:
+                    axioms.append(z3.ForAll([r, kx], z3.Implies(z3.And(rng, PyVal.is_RefV(e)), z3.And(PyVal.rval(e) > 0, PyVal.rval(e) < alloc0))))
+        for ob in self.obligations[first:]:
+            ob.hyps = list(ob.hyps) + axioms
 
     def mk_cover(self, name, hyps, props):
         from .symex import Obligation
@@ -364,7 +414,10 @@ class ContractMixin:
                     pass
         if "result" in c.sorts:
             want = c.sorts["result"]
-            if want != "any" and payload.kind != want and not (want.startswith("optref:") and (isinstance(payload, SNone) or payload.kind == want[7:])):
+            upcast = (want.startswith("ref:") and payload.kind.startswith("ref:") and self.is_subclass(payload.kind[4:], want[4:]))
+            if upcast:
+                extra["result"] = SRef(payload.t, want)
+            if want != "any" and payload.kind != want and not upcast and not (want.startswith("optref:") and (isinstance(payload, SNone) or payload.kind == want[7:])):
                 # a result of another static kind than the contract declares
                 if not (want == "any"):
                     self.oblige(s, "type", "result-kind", z3.BoolVal(False), f"returns {payload.kind}, contract says {want}", props=c.props)
@@ -466,7 +519,7 @@ class ContractMixin:
             # 1. preconditions
             for rname, text in c.requires.items():
                 self.oblige_spec(s, fr_c, "call-pre", f"{fi.qualname.split('.')[-1]}.{rname}", text, props=c.clause_props(rname))
-            if fi.qualname == self.cur_fn and not self.dry:
+            if fi.qualname == self.cur_fn.split("#")[0] and not self.dry:
                 self.recursion_obligations(fi, c, fr_c, s)
             # 2. havoc the footprint
             s.old = (pre_heap, dict(env), pre_alloc)
